@@ -4,27 +4,29 @@
   through symbolic execution and normalisation, the external operations must coincide.
 -/
 import GasolVerif.SymExec
+import GasolVerif.Norm
 namespace GasolVerif
 
-/-- a normaliser preserves the value of every term under well-formed environments -/
-structure NormSound (nf : Tm → Tm) : Prop where
-  w : ∀ (e : Env) (σ : St) (t : Tm), e.wf → evalW e σ (nf t) = evalW e σ t
-  m : ∀ (e : Env) (σ : St) (t : Tm), e.wf → evalM e σ (nf t) = evalM e σ t
-  s : ∀ (e : Env) (σ : St) (t : Tm), e.wf → evalS e σ (nf t) = evalS e σ t
+/-- a normaliser preserves the value of every term, at the sort it is used at, under well-formed
+    environments -/
+structure NormSound (nf : Normaliser) : Prop where
+  w : ∀ (e : Env) (σ : St) (t : Tm), e.wf → evalW e σ (nf.w t) = evalW e σ t
+  m : ∀ (e : Env) (σ : St) (t : Tm), e.wf → evalM e σ (nf.m t) = evalM e σ t
+  s : ∀ (e : Env) (σ : St) (t : Tm), e.wf → evalS e σ (nf.s t) = evalS e σ t
 
-def equivSeg (nf : Tm → Tm) (B B' : List Instr) : Bool :=
+def equivSeg (nf : Normaliser) (B B' : List Instr) : Bool :=
   match symExec B .init, symExec B' .init with
   | some S, some S' =>
     let S'' := S'.ensure (S'.stk.length + (S.base - S'.base))
-    decide (S'.base ≤ S.base) && (S.stk.map nf == S''.stk.map nf) &&
-      (nf S.mem == nf S'.mem) && (nf S.sto == nf S'.sto)
+    decide (S'.base ≤ S.base) && (S.stk.map nf.w == S''.stk.map nf.w) &&
+      (nf.m S.mem == nf.m S'.mem) && (nf.s S.sto == nf.s S'.sto)
   | _, _ => false
 
 def Instr.isExt : Instr → Bool
   | .ext _ _ _ => true
   | _ => false
 
-def equivBlock (nf : Tm → Tm) : Nat → List Instr → List Instr → Bool
+def equivBlock (nf : Normaliser) : Nat → List Instr → List Instr → Bool
   | 0, _, _ => false
   | fuel + 1, B, B' =>
     let p := B.takeWhile (fun i => !i.isExt)
@@ -38,10 +40,10 @@ def equivBlock (nf : Tm → Tm) : Nat → List Instr → List Instr → Bool
       | _, _ => false
 
 /-- the validator: enough fuel for every cut -/
-def equiv (nf : Tm → Tm) (B B' : List Instr) : Bool := equivBlock nf (B.length + 1) B B'
+def equiv (nf : Normaliser) (B B' : List Instr) : Bool := equivBlock nf (B.length + 1) B B'
 
-theorem map_eq_of_nf_eq {nf : Tm → Tm} (hn : NormSound nf) (e : Env) (we : e.wf) (σ : St) :
-    ∀ (l₁ l₂ : List Tm), l₁.map nf = l₂.map nf → l₁.map (evalW e σ) = l₂.map (evalW e σ)
+theorem map_eq_of_nf_eq {nf : Normaliser} (hn : NormSound nf) (e : Env) (we : e.wf) (σ : St) :
+    ∀ (l₁ l₂ : List Tm), l₁.map nf.w = l₂.map nf.w → l₁.map (evalW e σ) = l₂.map (evalW e σ)
   | [], [], _ => rfl
   | [], _ :: _, h => by simp at h
   | _ :: _, [], h => by simp at h
@@ -50,7 +52,7 @@ theorem map_eq_of_nf_eq {nf : Tm → Tm} (hn : NormSound nf) (e : Env) (we : e.w
     refine ⟨?_, map_eq_of_nf_eq hn e we σ l₁ l₂ h.2⟩
     rw [← hn.w e σ a we, ← hn.w e σ b we, h.1]
 
-theorem equivSeg_sound {nf : Tm → Tm} (hn : NormSound nf) (B B' : List Instr)
+theorem equivSeg_sound {nf : Normaliser} (hn : NormSound nf) (B B' : List Instr)
     (h : equivSeg nf B B' = true) : ObsEq B B' := by
   intro e we σ σ' hx
   unfold equivSeg at h
@@ -85,7 +87,7 @@ theorem equivSeg_sound {nf : Tm → Tm} (hn : NormSound nf) (B B' : List Instr)
         rw [hm, hs, map_eq_of_nf_eq hn e we σ _ _ hstk]
       · simp [hbase] at hx
 
-theorem equivBlock_sound {nf : Tm → Tm} (hn : NormSound nf) :
+theorem equivBlock_sound {nf : Normaliser} (hn : NormSound nf) :
     ∀ (fuel : Nat) (B B' : List Instr), equivBlock nf fuel B B' = true → ObsEq B B'
   | 0, _, _, h => by simp [equivBlock] at h
   | fuel + 1, B, B', h => by
@@ -108,7 +110,7 @@ theorem equivBlock_sound {nf : Tm → Tm} (hn : NormSound nf) :
     | [], _ :: _, hrest => simp at hrest
     | _ :: _, [], hrest => simp at hrest
 
-theorem equiv_sound {nf : Tm → Tm} (hn : NormSound nf) (B B' : List Instr)
+theorem equiv_sound {nf : Normaliser} (hn : NormSound nf) (B B' : List Instr)
     (h : equiv nf B B' = true) : ObsEq B B' :=
   equivBlock_sound hn _ B B' h
 
